@@ -11,7 +11,7 @@ TEXT = {
  "C04": ("grid theorems for every tiling (n x m, duplicate / blank, agreement off merges) + END-TO-END refinement: walking a whole tbl/tr/tc/p table from any reachable state appends exactly the grid function's table, each position holding the records of the source cell covering it (GridWalk; side condition refuted without it) + correspondence + cell-by-cell grid oracle", "8 C04"),
  "C05": ("lineage theorem for every directly nested table walked from any state, free-paragraph theorem, element/style from the paragraph refinement + correspondence of lineage/style/element + oracle on /repo's records, predicates and get_headings + source translation: is_tbl/is_tr/is_tc equal the model", "8 C05"),
  "C06": ("merge theorems (atoms preserved, idempotent - both partial with machine-checked counterexamples for each dropped hypothesis) + correspondence at run granularity + metamorphic re-splitting oracle", "8 C06"),
- "C07": ("balance theorem for every document (nested paragraphs and link bodies included), escaping theorems, vocabulary over the regenerated formatter table, switched-off properties produce no tag + correspondence of html strings + tokenizer oracle (balance, vocabulary, escapes, projection onto plain, per-character tag sets exactly those of the source run properties) + source translation: html_open/html_close, Run.__str__, Par.run_strings equal the model", "8 C07"),
+ "C07": ("balance theorem for every document (nested paragraphs and link bodies included), escaping theorems, vocabulary over the regenerated formatter table, switched-off properties produce no tag + correspondence of html strings + tokenizer oracle (balance, vocabulary, escapes, projection onto plain, per-character tag sets exactly those of the source run properties) + source translation: html_open/html_close, Run.__str__, Par.run_strings equal the model and DepthCollector.escape", "8 C07"),
  "C08": ("unbounded theorems for letters, Roman 1..3999 by kernel computation, counting rule for every history, sorted positions, marker layout + correspondence of the renderers and of list documents + oracle recomputing counts and marker text + source translation: the six renderers and _increment_list_counter equal the model for all arguments", "8 C08"),
  "C09": ("path-inference theorems (relative, absolute, root, own rels; the two failing classes refuted) + correspondence of file list and all attributes on re-laid-out packages + layout-invariance oracle", "8 C09"),
  "C10": ("marker theorems via the paragraph refinement (link resolved / anchor / fallback, one run, note references, note labels) + correspondence at run granularity and of utilities.get_links (regex re-implemented in Utilities.v) + oracle against relationships and get_links", "8 C10"),
@@ -24,10 +24,10 @@ TEXT = {
  "C17": ("node-level commutation theorem with the forced side condition, frame theorems, trailing-newline refutation + correspondence of the written archive + paragraph-wise commutation oracle", "8 C17"),
  "C18": ("theorems: the whole extraction is equal under any injective renaming of namespace URIs; XML comments, PIs and inter-element whitespace are invisible to merge + walk (TriviaFacts; equation clause and prefix clause shown necessary); attribute order and other prefixes irrelevant + correspondence on six serialisation variants + invariance oracle; partial: encoding/compression live in lxml/zipfile", "8 C18"),
  "C19": ("theorems: paragraph structure independent of html setting and inline merging, html reaches the walk only through the formatter table, dup local to merged positions + correspondence of the structural projection + pairwise option oracle + the returned images mapping does not depend on the folder (Fs.v)", "8 C19"),
- "C20": ("theorems for arbitrary nested lists and all depths (complete, sorted, indexable, iter = enum, bad depth) + exhaustive small trees + wide trees compared with the model and checked directly; html map by correspondence and oracle + source translation: enum_at_depth / iter_at_depth and the eight helpers equal the model", "8 C20"),
+ "C20": ("theorems for arbitrary nested lists and all depths (complete, sorted, indexable, iter = enum, bad depth) + exhaustive small trees + wide trees compared with the model and checked directly; html map by correspondence and oracle + source translation: enum_at_depth / iter_at_depth and the eight helpers equal the model; get_html_map translated with the heap embedding never modifies a cell that existed before the call", "8 C20"),
 }
 PARTIAL = {"C11": "the file system itself (mkdir / open('wb') are modelled in model/Fs.v and compared with what /repo wrote)", "C14": "caller buffers / input files (freshness of the returned lists is proved for the views translated with the heap embedding, SourceFresh.v; the heap semantics of PyHeap.v is modelled)", "C15": "OS file descriptors",
-           "C18": "character encoding, XML declaration, compression, timestamps (lxml / zipfile)", "C20": "non-modification of the argument (heap) and the html map's exactly-once clause are checked by the oracle only"}
+           "C18": "character encoding, XML declaration, compression, timestamps (lxml / zipfile)", "C20": "copy.deepcopy is modelled (PyHeap.hy_deepcopy); that the html map does not modify its argument is proved for the source translation in the heap embedding (SourceHtmlMap.v)"}
 checks = []
 for p in props:
     pid = p["id"]
